@@ -1144,6 +1144,9 @@ func (c *Ctx) checkIdentTests(r *Report) {
 	// R13: quote() keeps its argument as code: a register node inside it would be printed / unquoted instead of the name
 	r.Rule("C05.R15", "no register for a name CreateOrSet refuses: setupRegister / MakeRegister are called on the false edge of object.IsExtraFunction(name) (the Constant(name) half is C19.R4)")
 	c.checkNoRegisterForRefusedNames(r, "C05.R15")
+	r.Rule("C05.R16", "every test that accepts a field name (one token type tested against both STRING and IDENT, as a chain of != / == or a case list) accepts REGISTER too: the register pass rewrites field names that coincide with a register-held variable")
+	c.checkFieldNameTests(r, "C05.R16")
+	r.Floor("C05.R16", 2)
 	r.Rule("C05.R14", "a register is the only home of its name: in the REGISTER arm of evalAssignment no binding call (CreateOrSet / Set / SetNoChecks) is made")
 	c.checkRegisterArmBindsNothing(r, "C05.R14")
 	r.Rule("C05.R13", "a name that the body quotes keeps its variable: ModifyRegister aborts the rewrite (returns cont=false) on an edge where the builtin's token was tested against QUOTE")
